@@ -67,6 +67,8 @@ use std::path::PathBuf;
 /// Configure a `WalkBuilder` based on the unrestricted level in `PlanOptions`.
 ///
 /// This matches ripgrep's behavior with renamify-specific adjustments:
+/// Renamify's own state directory (.renamify) is never scanned at any level.
+///
 /// - Level 0 (default): Respect .gitignore, .ignore, .rnignore; include hidden files; exclude .git
 /// - Level 1 (-u): Don't respect .gitignore, but respect .ignore and .rnignore; include hidden; exclude .git
 /// - Level 2 (-uu): Don't respect any ignore files; include hidden files; exclude .git
@@ -104,7 +106,7 @@ pub fn configure_walker(roots: &[PathBuf], options: &scanner::PlanOptions) -> Wa
                 .add_custom_ignore_filename(".rnignore")  // Renamify-specific ignore file
                 .filter_entry(|e| {
                     // Exclude .git directories from being scanned
-                    e.file_name() != ".git"
+                    e.file_name() != ".git" && e.file_name() != ".renamify"
                 })
         },
         1 => {
@@ -119,7 +121,7 @@ pub fn configure_walker(roots: &[PathBuf], options: &scanner::PlanOptions) -> Wa
                 .add_custom_ignore_filename(".rnignore")  // Renamify-specific ignore file
                 .filter_entry(|e| {
                     // Exclude .git directories from being scanned
-                    e.file_name() != ".git"
+                    e.file_name() != ".git" && e.file_name() != ".renamify"
                 })
         },
         2 | 3 => {
@@ -134,7 +136,7 @@ pub fn configure_walker(roots: &[PathBuf], options: &scanner::PlanOptions) -> Wa
                 .hidden(false) // false = include hidden files
                 .filter_entry(|e| {
                     // Always exclude .git directories - they should never be renamed
-                    e.file_name() != ".git"
+                    e.file_name() != ".git" && e.file_name() != ".renamify"
                 })
         },
         _ => {
@@ -148,7 +150,7 @@ pub fn configure_walker(roots: &[PathBuf], options: &scanner::PlanOptions) -> Wa
                 .hidden(false)
                 .filter_entry(|e| {
                     // Always exclude .git directories - they should never be renamed
-                    e.file_name() != ".git"
+                    e.file_name() != ".git" && e.file_name() != ".renamify"
                 })
         },
     };
